@@ -43,15 +43,28 @@ def compose_facts(sym, back, m):
     sym.check("compose.respin", back.compose.respin == m.compose.respin)
 
 
+# canonical keys of the pool entries (name-epoch:version-release.arch, no directory, no .rpm)
+RPM_CANON = ["glibc-0:2.18-11.fc20.x86_64", "glibc-debuginfo-0:2.18-11.fc20.x86_64", "glibc-0:2.18-11.fc20.src",
+             "python3-docs-3:3.4.1-2.fc21.noarch", "gtk+3-12:3.10.6-1.el7_2.i686", "gtk+3-12:3.10.6-1.el7_2.nosrc"]
+SRPM_CANON = ["glibc-0:2.18-11.fc20.src", "glibc-0:2.18-11.fc20.src", None, "python3-docs-3:3.4.1-2.fc21.src", "gtk+3-12:3.10.6-1.el7_2.nosrc", None]
+
+
 def rpms_roundtrip(sym, history):
     m = Rpms()
     fill_compose(sym, m)
+    expected = {}          # the documented layout, built from the calls (independent of Rpms.add)
     try:
         for step, (cell, ri) in enumerate(history):
             variant, arch = CELLS[cell]
             nevra, category, srpm = RPM_POOL[ri]
             sigkey = sym.str("sigkey%d" % step, 4, alphabet=["0-9", "a-f", "A-F"]) if (step + ri) % 2 else None
-            m.add(variant, arch, nevra, sym.str("path%d" % step, 4, minlen=1), sigkey, category, srpm)
+            path = sym.str("path%d" % step, 4, minlen=1)
+            sym.assume(sym.not_(path.startswith("/")))
+            m.add(variant, arch, nevra, path, sigkey, category, srpm)
+            key = SRPM_CANON[ri] if SRPM_CANON[ri] is not None else RPM_CANON[ri]
+            expected.setdefault(variant, {}).setdefault(arch, {}).setdefault(key, {})[RPM_CANON[ri]] = {
+                "sigkey": sigkey.lower() if sigkey is not None else None, "path": path, "category": category}
+        sym.check("built-mapping-follows-the-calls", m.rpms == expected)
         before = clone(m.rpms)
         text = m.dumps()
     except (ValueError, TypeError):
@@ -133,6 +146,14 @@ def _histories(kind, tier, seed):
         else:
             hist = [(rnd.randrange(len(CELLS)), bool(rnd.randrange(2))) for _ in range(steps)]
         out.append(hist)
+    # fixed histories: the same source package in consecutive calls for different trees, the same RPM under several
+    # variants/arches, a source RPM between two binaries, the same module in every category and in two trees
+    if kind == "rpms":
+        out += [[(0, 0), (2, 1)], [(0, 0), (0, 2), (1, 1), (3, 0)], [(0, 3), (1, 3), (2, 3)], [(0, 4), (0, 5), (2, 4)], [(3, 1), (0, 1), (0, 0)]]
+    elif kind == "modules":
+        out += [[(0, 0, 0), (0, 0, 1), (0, 0, 2)], [(0, 1, 0), (2, 1, 0), (0, 1, 1)], [(1, 2, 0), (1, 0, 0), (1, 2, 1)]]
+    else:
+        out += [[(0, True), (0, False), (0, True)], [(0, False), (1, False), (0, True)]]
     return out
 
 
